@@ -119,3 +119,22 @@ Definition doc_username_ok (u : list byte) : bool :=
   | [] => false
   | a :: _ => is_alnum a && is_alnum (last u x00) && forallb is_inner u
   end.
+
+Lemma alnum_inner b : is_alnum b = true -> is_inner b = true.
+Proof. intro H. unfold is_inner. rewrite H. reflexivity. Qed.
+
+(* the user-name expression of the code is the documented grammar *)
+Theorem username_ok_iff_doc u : username_ok u = doc_username_ok u.
+Proof.
+  destruct u as [|a r]; [reflexivity|]. destruct r as [|b r'].
+  - cbn [username_ok doc_username_ok last forallb]. destruct (is_alnum a) eqn:E; [rewrite (alnum_inner a E)|]; reflexivity.
+  - set (r := b :: r').
+    change (username_ok (a :: r)) with (is_alnum a && forallb is_inner (removelast r) && is_alnum (last r x00)).
+    change (doc_username_ok (a :: r)) with (is_alnum a && is_alnum (last r x00) && (is_inner a && forallb is_inner r)).
+    assert (Hf : forallb is_inner r = forallb is_inner (removelast r) && (is_inner (last r x00) && true)).
+    { rewrite (app_removelast_last x00 (l := r)) at 1 by discriminate. rewrite forallb_app. reflexivity. }
+    rewrite Hf.
+    destruct (is_alnum a) eqn:Ea; [rewrite (alnum_inner a Ea)|reflexivity].
+    destruct (is_alnum (last r x00)) eqn:El; [rewrite (alnum_inner _ El)|rewrite !andb_false_r; reflexivity].
+    cbn [andb]. rewrite !andb_true_r. reflexivity.
+Qed.
